@@ -10,7 +10,7 @@ RULES = {
     'C19.R3': 'one scale: write_inequality divides the row and the bias by the same max|coeff|, only when not all-zero; tautology symbols follow bias >= 0; write_float prints sign and magnitude of the same value',
     'C19.R4': 'one statement per node and edge: Dot prints n{idx} with the node\'s own function/predicate by its leaf flag and every edge\'s own source, target and label; Display iterates the nodes once',
 }
-FLOORS = {'C19.R1': 1, 'C19.R2': 3, 'C19.R3': 3, 'C19.R4': 4}
+FLOORS = {'C19.R1': 1, 'C19.R2': 3, 'C19.R3': 4, 'C19.R4': 7}
 EXPLANATION = 'Provenance rules on what is handed to the formatting machinery.'
 DOES_NOT_DECIDE = 'that the digits equal the stored values at the printed precision (core::fmt), layout'
 
@@ -42,8 +42,10 @@ def run(ctx):
     for q, inner, rng in (('write_poly', 'write_inequality', 'skip_rows'), ('write_func', 'write_affcomb', 'skip_rows')):
         skipping(ctx, F, q, inner, rng)
     inequality(ctx, F)
+    affcomb(ctx, F)
     wfloat(ctx, F)
     dot(ctx, F)
+    node_display(ctx, F)
 
 
 def lincomb(ctx, F):
@@ -140,6 +142,17 @@ def skipping(ctx, F, q, inner, rng):
                 flag_ok = len(inits) == 1 and inits[0][0] not in cfg.loop_of(h) and cfg.dominates(inits[0][0], h) and clears and \
                     all(cfg.dominates(bb, d[0]) or _after_in_iteration(cfg, bb, d[0]) for d in clears)
             ell = is_ell and flag_ok
+    # the row and the bias printed together belong to one (row, bias) pair of the zipped iteration
+    pair_ok = True
+    if q in ('write_poly', 'write_func'):
+        ia = R.call_args(inner_calls[0])
+        items = [x for x in walk(ia[1]) if is_call(x, 'Iterator::next')]
+        pair_ok = bool(items) and any(s(x) == s(items[0]) for x in walk(ia[2])) and \
+            any(is_call(x, 'zip') or is_call(x, 'Iterator::zip') for x in walk(items[0])) and \
+            any(is_call(x, 'AffFuncBase::matrix_view') for x in walk(items[0])) and any(is_call(x, 'AffFuncBase::bias_view') for x in walk(items[0]))
+    if not pair_ok:
+        ctx.bad('C19.R2', site, 'the row and the bias handed to %s are not the two components of one zipped (row, bias) item: after a skipped row they can drift apart' % inner, b.span)
+        return
     if range_ok and counter_ok and not silent and ell:
         ctx.ok('C19.R2', site, 'an item is skipped only when options.%s contains its position, and the first skip writes the ellipsis' % rng, b.span)
     else:
@@ -196,6 +209,76 @@ def inequality(ctx, F):
     ok = sym.get('⊤') == ('true', True, True) and sym.get('⊥') == ('false', True, True) and bool(plain)
     (ctx.ok if ok else ctx.bad)('C19.R3', site, 'all-zero row: ⊤ iff bias >= 0, ⊥ otherwise (only with simplify_tautologies); otherwise row and bias are printed unchanged' if ok else
                                 'tautology symbols do not follow the sign of the bias: %s' % sym, b.span)
+
+
+def affcomb(ctx, F):
+    """write_affcomb prints the bias and then the linear part of the same row; the linear part may be omitted only when every coefficient
+    is exactly zero (and simplify_zero is set)."""
+    from ..absint import Interp
+    b = ctx.body('C19.R3', 'write_affcomb')
+    if b is None:
+        return
+    R = Resolver(b)
+    wf = [(bb, R.call_args(bb)) for bb, t in b.calls_to('write_float')]
+    wl = [(bb, R.call_args(bb), literals(b, R, bb)) for bb, t in b.calls_to('write_lincomb')]
+    ok = len(wf) == 1 and wf[0][1][1] == ('param', 'bias') and len(wl) == 1 and wl[0][1][1] == ('param', 'row')
+    why = ''
+    if ok:
+        from ..mir import EXIT, edge_literal
+        cfg = b.cfg()
+        # every successful path that does not print the coefficients passes the true outcome of `row.iter().all(|x| x == 0.0)`
+        zero_edges = []
+        for sb, bl in b.live_blocks():
+            if bl['term']['k'] != 'switch':
+                continue
+            d = R.switch_discr(sb)
+            if d is not None and is_call(d, 'Iterator::all') and d[2][0] == ('param', 'row') and d[2][1][0] == 'closure':
+                cb = F.closure(d[2][1][1])
+                kind = Interp(F, cb, {}, True, 0).element_predicate(cb) if cb is not None else None
+                for e in cfg.edge_nodes(sb):
+                    lit = edge_literal(b, R, sb, cfg.edge_label[e])
+                    if lit and lit[0] == 'true':
+                        if kind == 'zero':
+                            zero_edges.append(e)
+                        else:
+                            why = 'the test that suppresses the coefficients is not "every coefficient == 0.0" exactly'
+        err_blocks = [bb for bb, t in b.calls() if Callee(t['func']).name == 'from_residual']
+        if cfg.reaches(0, EXIT, avoid=[wl[0][0]] + zero_edges + err_blocks):
+            ok = False
+            why = why or 'a successful path skips the coefficients without an exact all-zero test'
+    (ctx.ok if ok else ctx.bad)('C19.R3', 'write_affcomb', 'bias then coefficients of the same row; coefficients omitted only if all are exactly 0.0 and simplify_zero is set' if ok else
+                                'write_affcomb can drop non-zero coefficients or mis-pair bias and row: ' + why, b.span)
+
+
+def node_display(ctx, F):
+    """Display of a node shows its own complete function / predicate: leaf -> write_func of the whole aff, decision -> write_poly of all rows."""
+    for q, inner, what in (('write_predicate', 'write_poly', 'all rows of the predicate'), ('write_terminal', 'write_func', 'the whole function')):
+        b = ctx.body('C19.R4', q)
+        if b is None:
+            continue
+        R = Resolver(b)
+        calls_ = [(bb, R.call_args(bb)) for bb, t in b.calls_to(inner)]
+        ok = len(calls_) == 1
+        if ok:
+            a = calls_[0][1][1]
+            if inner == 'write_poly':
+                ok = is_call(a, 'AffFuncBase::from_mats') and a[2][0] == ('field', ('param', 'pred'), 'mat') and a[2][1] == ('field', ('param', 'pred'), 'bias')
+            else:
+                ok = a == ('param', 'pred') or (a[0] == 'agg' and a[2][:2] == (('field', ('param', 'pred'), 'mat'), ('field', ('param', 'pred'), 'bias')))
+        others = [Callee(t['func']).short for bb, t in b.calls() if Callee(t['func']).name in ('write_inequality', 'write_affcomb', 'write_lincomb')]
+        ok = ok and not others
+        (ctx.ok if ok else ctx.bad)('C19.R4', q, '%s(%s)' % (inner, what) if ok else '%s does not render %s of its argument' % (q, what), b.span)
+    b = ctx.body('C19.R4', '<TreeNode as Display>::fmt')
+    if b is not None:
+        R = Resolver(b)
+        wt = [(bb, R.call_args(bb), literals(b, R, bb)) for bb, t in b.calls_to('write_terminal')]
+        wp = [(bb, R.call_args(bb), literals(b, R, bb)) for bb, t in b.calls_to('write_predicate')]
+        AFF = ('field', ('field', ('param', 'self'), 'value'), 'aff')
+        LEAF = ('field', ('param', 'self'), 'isleaf')
+        ok = len(wt) == 1 and len(wp) == 1 and wt[0][1][1] == AFF and wp[0][1][1] == AFF and \
+            any(l[0] == 'true' and l[1] == LEAF for l in wt[0][2]) and any(l[0] == 'false' and l[1] == LEAF for l in wp[0][2])
+        (ctx.ok if ok else ctx.bad)('C19.R4', '<TreeNode_as_Display>::fmt', 'leaf -> its function, decision -> its predicate (own aff, by the leaf flag)' if ok else
+                                    'node Display does not render the node\'s own aff according to its leaf flag', b.span)
 
 
 def wfloat(ctx, F):
